@@ -54,20 +54,16 @@ func VP_C15_MarketBeginBlockerNeverPanics() {
 			priced++
 		}
 	}
+	// optional oracle records: either none of them is stored (fresh chain: every getter sees a missing record) or all
+	// of them are, with arbitrary contents
+	id := int64(0)
 	if zzvp.AnyBool() {
 		bk.SetOracleValidationResult(ctx, zzvp.AnyBool())
-	}
-	if zzvp.AnyBool() {
 		bk.SetLastBlockHeight(ctx, zzvp.AnyInt64())
-	}
-	if zzvp.AnyBool() {
 		bk.SetDiscardData(ctx, bandtypes.DiscardData{BlockHeight: zzvp.AnyInt64(), DiscardBool: zzvp.AnyBool()})
-	}
-	id := zzvp.AnyInt64()
-	if zzvp.AnyBool() {
+		id = zzvp.AnyInt64()
 		bk.SetLastFetchPriceID(ctx, bandtypes.OracleRequestID(id))
-	} else {
-		id = 0
+		bk.SetFetchPriceMsg(ctx, bandtypes.MsgFetchPriceData{OracleScriptID: zzvp.AnyUint64(), TwaBatchSize: zzvp.AnyUint64(), AcceptedHeightDiff: zzvp.AnyInt64()})
 	}
 	m := zzvp.Choose(maxN + 2) // 0 = no stored result, j+1 = result with j rates
 	if m > 0 {
@@ -76,9 +72,6 @@ func VP_C15_MarketBeginBlockerNeverPanics() {
 			rates[i] = zzvp.AnyUint64()
 		}
 		bk.SetFetchPriceResult(ctx, bandtypes.OracleRequestID(id), bandtypes.FetchPriceResult{Rates: rates})
-	}
-	if zzvp.AnyBool() {
-		bk.SetFetchPriceMsg(ctx, bandtypes.MsgFetchPriceData{OracleScriptID: zzvp.AnyUint64(), TwaBatchSize: zzvp.AnyUint64(), AcceptedHeightDiff: zzvp.AnyInt64()})
 	}
 	panicked := zzvp.Try(func() { BeginBlocker(ctx, abci.RequestBeginBlock{}, k, bk, ak) })
 	zzvp.Reach("begin-blocker-returned")
